@@ -483,23 +483,34 @@ fn pretty_print(output: TokenStream) -> String {
 
 fn pretty_print_rustfmt(tokens: TokenStream) -> String {
     let value = tokens.to_string();
-    // TODO: Return errors?
-    if let Ok(mut proc) = Command::new("rustfmt")
+    // Use the unformatted tokens if rustfmt is missing or fails in any way.
+    format_with_rustfmt(&value).unwrap_or(value)
+}
+
+fn format_with_rustfmt(value: &str) -> Option<String> {
+    let mut proc = Command::new("rustfmt")
         .arg("--emit=stdout")
         .stdin(Stdio::piped())
         .stdout(Stdio::piped())
         .stderr(Stdio::null())
         .spawn()
-    {
-        let stdin = proc.stdin.as_mut().unwrap();
-        stdin.write_all(value.as_bytes()).unwrap();
+        .ok()?;
 
-        let output = proc.wait_with_output().unwrap();
-        if output.status.success() {
-            return String::from_utf8(output.stdout).unwrap();
-        }
+    // Writing fails if rustfmt exits without reading its input.
+    // Close stdin and wait for the process in any case.
+    let written = proc.stdin.take()?.write_all(value.as_bytes());
+    let output = proc.wait_with_output().ok()?;
+    written.ok()?;
+
+    if !output.status.success() {
+        return None;
     }
-    value.to_string()
+    let formatted = String::from_utf8(output.stdout).ok()?;
+    if formatted.is_empty() {
+        None
+    } else {
+        Some(formatted)
+    }
 }
 
 fn indexed_name_to_ident(name: &str, index: u32) -> Ident {
